@@ -89,7 +89,15 @@ def _call(args):
             if r is None:
                 r = {}
             r['_idx'] = idx
-        except (Exception, SystemExit):
+        except Exception as e0:
+            if type(e0).__name__ == 'GuppiFormatError':
+                # a recording the independent GUPPI reader cannot frame, at a place where the case function did not expect it:
+                # whatever else the property says about those bytes, they are not there to be read
+                r = {'_idx': idx, 'n': 1, 'viol': [{'site': 'RawVoltageBackend.record', 'failure': 'recording_not_parseable',
+                                                    'detail': 'independent GUPPI reader: %s' % e0}]}
+            else:
+                r = {'_idx': idx, '_error': traceback.format_exc(), '_case': case}
+        except SystemExit:
             # SystemExit too: blimpy calls sys.exit() on some inputs, which would silently kill the worker
             r = {'_idx': idx, '_error': traceback.format_exc(), '_case': case}
         out.append(r)
@@ -242,7 +250,12 @@ class Ctx(object):
             if fn is not None and case is not None and not v.get('no_reexec'):
                 _silence()
                 try:
-                    r2 = fn(case) or {}
+                    try:
+                        r2 = fn(case) or {}
+                    except Exception as e0:
+                        if type(e0).__name__ != 'GuppiFormatError':
+                            raise
+                        r2 = {'viol': [{'site': 'RawVoltageBackend.record', 'failure': 'recording_not_parseable'}]}
                 except Exception:
                     print('HARNESS-ERROR property=%s: re-execution of violating case raised\n%s'
                           % (self.prop, traceback.format_exc()))
